@@ -232,6 +232,10 @@ def check(run):
             from . import c16_status
             c16_status.replay(run, rp)
             return
+        if rp.get("engine") == "errmsg-api":
+            from . import c16_api
+            c16_api.replay(run, rp)
+            return
         part = [rp["ops"].split()]
         lines = [" ".join(c) for c in part]
         model = core.run_model("errmsg", run.casefile("errmsg-cases.txt", lines))
@@ -268,3 +272,5 @@ def check(run):
             break
     from . import c16_status
     c16_status.check(run)
+    from . import c16_api
+    c16_api.check(run)
